@@ -144,6 +144,11 @@ def run_function(eng: Engine, c: Contract, ctx, fi: FuncInfo, alias=None, lemma_
     return ex, env, pre
 
 
+def streams_mod():
+    from . import streams
+    return streams
+
+
 def preset_consts(ex, st, ref, cls):
     """fields that are per-class constants (type code, bits per element): literal values"""
     ci = CLASSES.get(cls)
@@ -225,6 +230,9 @@ def exit_obligations(ex: Executor, c: Contract, env, pre):
 def modifies_locs(ex, c, env, pre):
     out = set()
     for path in c.modifies:
+        if path == "fs":
+            out.add("fs")
+            continue
         tree = ast.parse(path, mode="eval").body
         o = pre.fork()
         o.env = dict(env)
@@ -253,6 +261,11 @@ def modifies_locs(ex, c, env, pre):
 
 
 def frame_obligations(ex, st, pre, mod_locs, tag):
+    if "fs" not in mod_locs and st.fs is not None and pre.fs is not st.fs:
+        a = st.fs
+        b = pre.fs if pre.fs is not None else (streams_mod().FS_DATA, streams_mod().FS_LEN, streams_mod().FS_EXISTS)
+        if not all(z3.eq(x, y) for x, y in zip(a, b)):
+            ex.oblige(st, f"{tag}.frame.file_system_unchanged", z3.And(*[x == y for x, y in zip(a, b)]), "frame")
     for oid, before in pre.heap.items():
         if ("obj", oid) in mod_locs:
             continue
@@ -320,6 +333,8 @@ def background(eng):
     bg += streams.real_axioms()
     for f in streams.digit_axioms():
         bg.append((("digit",), f))
+    for f in streams.path_axioms():
+        bg.append((("resolve_path",), f))
     from . import tables
     for f in tables.axioms(LM.rsum):
         bg.append((("tcount", "tsize", "lcnt", "undo_cells", "undo_hand"), f))
